@@ -18,8 +18,8 @@ ASSUMPTIONS = ["comparison operators of items are not user callables in the sens
 
 
 def cases(tier, rng):
-    yield from s1.base_cases(tier, rng, s1.KINDS_ALL, s1.cons_all_cuts)
-    yield from s1.random_cases(tier, rng, s1.KINDS_ALL, 1500 if tier == "quick" else 40000, cons_kinds=("exhaust", "close"))
+    yield from s1.base_cases(tier, rng, s1.KINDS_ALL, s1.cons_all_cuts, tools_subset=s1.ITER_TOOLS + ["all", "any"])
+    yield from s1.random_cases(tier, rng, s1.KINDS_ALL, 1500 if tier == "quick" else 40000, cons_kinds=("exhaust", "close"), tools_subset=s1.ITER_TOOLS + ["all", "any"])
 
 
 def _proj(vis, out):
@@ -50,4 +50,4 @@ def search_cases(broken, rng):
             c = dict(case)
             c["srcs"] = [dict(s, kind=kind) for s in case["srcs"]]
             yield c
-    yield from s1.random_cases("quick", rng, ["aobj", "aobj_nc", "iter"], 3000, cons_kinds=("exhaust", "close"))
+    yield from s1.random_cases("quick", rng, ["aobj", "aobj_nc", "iter"], 3000, cons_kinds=("exhaust", "close"), tools_subset=s1.ITER_TOOLS + ["all", "any"])
